@@ -242,6 +242,51 @@ func genResp(t *rapid.T, cfg *Config, scale int, e2e bool) Resp {
 	return r
 }
 
+// genPendingPair draws two responses for one keep-alive connection: a matching
+// one that ends before the first action of its shape (the connection's context
+// is left with an action pending), then one whose URL matches no pattern and
+// whose body is long enough to run over every offset of that shape.
+func genPendingPair(t *rapid.T, cfg *Config, scale int, e2e bool) (first, second Resp, ok bool) {
+	if cfg == nil {
+		return
+	}
+	var cands []Shape
+	for _, s := range cfg.Shapes {
+		lo := int64(-1)
+		for _, h := range s.Halts {
+			if lo < 0 || h.At < lo {
+				lo = h.At
+			}
+		}
+		for _, c := range s.Closes {
+			if lo < 0 || c.At < lo {
+				lo = c.At
+			}
+		}
+		if lo >= 2 {
+			cands = append(cands, s)
+		}
+	}
+	if len(cands) == 0 {
+		return
+	}
+	s := cands[rapid.IntRange(0, len(cands)-1).Draw(t, "pending_shape")]
+	lo, hi := int64(1)<<40, int64(0)
+	for _, h := range s.Halts {
+		lo, hi = minI(lo, h.At), -minI(-hi, -h.At)
+	}
+	for _, c := range s.Closes {
+		lo, hi = minI(lo, c.At), -minI(-hi, -c.At)
+	}
+	first = genResp(t, cfg, scale, e2e)
+	first.Pat, first.Start, first.P206, first.Star, first.Chunked, first.ReqClose = s.Pat, 0, false, false, false, false
+	first.Body = rapid.IntRange(1, int(lo)-1).Draw(t, "pending_body")
+	second = genResp(t, cfg, scale, e2e)
+	second.Pat, second.Start, second.P206, second.Star, second.ReqClose = -1, 0, false, false, false
+	second.Body = int(hi) + 64 + rapid.IntRange(0, scale/2+1).Draw(t, "crossing_body")
+	return first, second, true
+}
+
 // history draws a sequential history.
 func genHistory(t *rapid.T, level string, maxSteps int, scales []int) Case {
 	scale := rapid.SampledFrom(scales).Draw(t, "scale")
@@ -277,6 +322,13 @@ func genHistory(t *rapid.T, level string, maxSteps int, scales []int) Case {
 			doOpen()
 		case k < 13:
 			id := open[rapid.IntRange(0, len(open)-1).Draw(t, "conn")]
+			if connCfg[id] == active && rapid.IntRange(0, 3).Draw(t, "pending_pair") == 0 {
+				if a, b, ok := genPendingPair(t, connCfg[id], scale, level == "e2e"); ok {
+					c.Steps = append(c.Steps, Step{Op: "resp", Conn: id, R: &a}, Step{Op: "resp", Conn: id, R: &b})
+					resps += 2
+					continue
+				}
+			}
 			r := genResp(t, connCfg[id], scale, level == "e2e")
 			c.Steps = append(c.Steps, Step{Op: "resp", Conn: id, R: &r})
 			resps++
@@ -390,10 +442,26 @@ func analyze(c Case) map[string]bool {
 	var active *cfgM
 	epoch := 0
 	conns := map[int]*cfgM{}
+	pending := map[int]bool{} // connection -> its last response left an action of its shape pending
 	look := func(id int, r Resp, par bool) {
 		cfg, ok := conns[id]
 		if !ok {
 			return
+		}
+		was := pending[id]
+		pending[id] = false
+		if s := cfg.byPat(r.Pat); r.Pat >= 0 && s != nil && cfg == active && r.Start >= 0 && !r.Chunked && !r.ReqClose {
+			for _, a := range s.acts {
+				if a.at-r.Start > int64(r.Body) {
+					pending[id] = true
+				}
+				if a.kind == 'c' && a.at >= r.Start && a.at-r.Start <= int64(r.Body) {
+					pending[id] = false // may be cut: the connection is gone
+					break
+				}
+			}
+		} else if was && (r.Pat < 0 || cfg.byPat(r.Pat) == nil) && r.Body > 0 {
+			cl["non-matching-after-pending-action"] = true
 		}
 		if r.ReqClose && r.Pat >= 0 && cfg.byPat(r.Pat) != nil && cfg == active {
 			cl["matching-request-asks-close"] = true
@@ -607,6 +675,20 @@ func fixedCases() []Case {
 			Resp{Pat: 1, Body: 12000, Seed: 30, ReqClose: true},
 			Resp{Pat: 1, Start: 150, Body: 12000, Seed: 31, ReqClose: true},
 			Resp{Pat: -1, Body: 12000, Seed: 32, ReqClose: true}))
+	}
+	// state carried between exchanges on one keep-alive connection: a matching response that ends
+	// before the shape's halt (700) and close (1000), then a response on a URL matching no pattern
+	// that runs over both offsets - complete and uncut - then a matching one that still finds both
+	for _, level := range []string{"e2e", "mitm"} {
+		pend := Config{Shapes: []Shape{{Pat: 1, Var: 1, Halts: []Halt{{At: 700, Dur: 40, N: 1}}, Closes: []CloseAct{{At: 1000, N: 1}}}}}
+		out = append(out, Case{Level: level, Steps: []Step{
+			{Op: "post", Cfg: &pend}, {Op: "open", Conn: 0},
+			{Op: "resp", Conn: 0, R: &Resp{Pat: 1, Body: 500, Seed: 40}},
+			{Op: "resp", Conn: 0, R: &Resp{Pat: -1, Body: 3000, Seed: 41}},
+			{Op: "resp", Conn: 0, R: &Resp{Pat: 1, Body: 300, Seed: 42}},
+			{Op: "resp", Conn: 0, R: &Resp{Pat: -2, Body: 9000, Seed: 43, Chunked: true}},
+			{Op: "resp", Conn: 0, R: &Resp{Pat: 1, Body: 2000, Seed: 44}},
+		}})
 	}
 	out = append(out, one("e2e", Shape{Pat: 0, Var: 2, Closes: []CloseAct{{At: 900, N: -1}}},
 		Resp{Pat: 0, Start: 500, Body: 3000, Seed: 7, Star: true},
